@@ -385,7 +385,7 @@ def rule_IDX(ctx):
 def rule_TY1(ctx):
     """math.* is only applied to values that are numbers on every path (element values may be str, bytes or Bits)."""
     m = ctx.m
-    r = RuleResult('TY1', 'numeric-only library calls are not applied to element values that may be str/bytes/Bits')
+    r = RuleResult('TY1', 'element values: numeric-only calls are type-guarded; count/index/in work on decoded items; a promotion tie goes to the first type')
     n = 0
     for f in m.funcs.values():
         if f.mod != 'array_':
@@ -421,6 +421,29 @@ def rule_TY1(ctx):
                    "on encoding, and differently spelled hex/bin strings then count differently from the list of items", loc=f.loc(enc[0]), extra={'props': ['C14']})
         else:
             r.ok(f'Array.{nm} works on decoded items')
+    # documented promotion rule 6: "in a tie the first type wins" - wherever two types of different name are ranked by length, the
+    # branch taken for EQUAL lengths must return the first parameter
+    pf = arr.methods.get('_promotetype') if arr else None
+    if pf is not None and len(pf.params()) >= 3:
+        first, second = pf.params()[1], pf.params()[2]
+        for x in own_walk(pf.node):
+            if not isinstance(x, ast.IfExp):
+                continue
+            t = x.test
+            if not (isinstance(t, ast.Compare) and len(t.ops) == 1 and isinstance(t.ops[0], (ast.Gt, ast.GtE, ast.Lt, ast.LtE))):
+                continue
+            sides = {ast.unparse(t.left), ast.unparse(t.comparators[0])}
+            if not any(sides == {f'{first}.{a}', f'{second}.{a}'} for a in ('length', 'bitlength')):
+                continue
+            # skip the same-name case (the two types then differ at most in scale)
+            if any(isinstance(i, ast.If) and '.name ==' in ast.unparse(i.test) and any(x is y for b in i.body for y in ast.walk(b)) for i in own_walk(pf.node)):
+                continue
+            on_equal = x.body if isinstance(t.ops[0], (ast.GtE, ast.LtE)) else x.orelse
+            if ast.unparse(on_equal) != first:
+                r.fail(pf.key, x, f"for two types of equal length this returns '{ast.unparse(on_equal)}': the documented rule is that in a tie the first type "
+                       f"('{first}') wins, so a + b gets b's dtype (and byte order) when only the names differ", loc=pf.loc(x), extra={'props': ['C14']})
+            else:
+                r.ok(f'promotion tie: {norm(x)}')
     if n == 0:
         r.ok('no numeric-only call on element values', trivial=True)
     return r
